@@ -137,11 +137,13 @@ RpcCall(r, k, p, c) ==
     /\ UNCHANGED <<cloud, pod, disk, wr, acked, gc, gcn, apierr, up, dbf>>
 
 (* The handler looked the pod up: it holds the pod's pending entry and the service lock (shared) now. *)
-GetPod(r, found, sticky) ==
+(* chk: the answer comes from the harness's fake of k8s.Kubernetes (an interface fact); otherwise it is the answer  *)
+(* of the real pkg/k8s code (its own pod cache included) and is taken as reported.                                 *)
+GetPod(r, found, sticky, chk) ==
     /\ rpc[r].st = "called"
     /\ LET p == rpc[r].p IN
-       /\ found = (pod[p].api \/ pod[p].cached)                                                      \* (I)
-       /\ found => sticky = pod[p].sticky                                                            \* (I)
+       /\ chk => found = (pod[p].api \/ pod[p].cached)                                               \* (I)
+       /\ (chk /\ found) => sticky = pod[p].sticky                                                   \* (I)
        /\ rpc' = [q \in Rpcs |->
              IF q = r THEN [rpc[r] EXCEPT !.st = "in", !.found = found, !.sticky = sticky,
                                           !.eff = (rpc[r].k = "del" /\ found /\ ~sticky /\ disk[p] # NoRec /\ disk[p].c = rpc[r].c)]
@@ -253,12 +255,14 @@ LocalPods(live, err) ==
     /\ rpc' = [r \in Rpcs |-> IF rpc[r].st = "in" THEN [rpc[r] EXCEPT !.st = "outG", !.snap = disk[rpc[r].p]] ELSE rpc[r]]
     /\ UNCHANGED <<cloud, pod, disk, wr, acked, gcn, apierr, conv, up, dbf>>
 
-PodExist(p, exist, err) ==
+(* cons: the API server was asked for a consistent read; otherwise (resourceVersion=0) it may answer from its watch   *)
+(* cache, i.e. with what the node-local list showed already: that is not "the API server confirms the absence".       *)
+PodExist(p, exist, err, cons) ==
     /\ gc.st \in {"in", "out"}
     /\ G("C09", gc.st = "in")
     /\ err = apierr                                                                                  \* (I)
-    /\ ~err => exist = pod[p].api                                                                    \* (I)
-    /\ gc' = [gc EXCEPT !.exist[p] = IF err THEN "err" ELSE IF exist THEN "yes" ELSE "no"]
+    /\ ~err => exist = (IF cons THEN pod[p].api ELSE pod[p].loc = "run")                             \* (I) store / watch cache
+    /\ gc' = [gc EXCEPT !.exist[p] = IF err THEN "err" ELSE IF exist THEN "yes" ELSE IF cons THEN "no" ELSE "stale"]
     /\ UNCHANGED <<cloud, pod, disk, wr, acked, rpc, gcn, apierr, conv, up, dbf>>
 
 GcRet(err) ==
